@@ -445,3 +445,17 @@ def c16_4(ctx: Ctx) -> RuleResult:
                     "" if ok else f"loop iterates `{show(it, 80)}`", construct=f"{f.name}: loop over ordered samplers")
     res.floor = 2
     return res
+
+
+@rule(P)
+def c16_5(ctx: Ctx) -> RuleResult:
+    """Shared with C19.3: a reused plug-in manager resolves a method exactly like a fresh one with the same
+    registrations only if look-ups leave no trace (no memo of earlier resolutions, no memoised methods)."""
+    from .c19 import c19_3
+
+    r = c19_3(ctx)
+    r.instances = [i for i in r.instances if "writes self." in i.construct or "memoised" in i.construct or "registry" in i.construct]
+    for i in r.instances:
+        i.rule = "C16.5"
+    r.rule, r.title, r.floor = "C16.5", "plug-in resolution does not depend on earlier look-ups of a reused manager (the registry is its only state)", 3
+    return r
